@@ -52,6 +52,7 @@ class Transcript:
         self.requests: List[str] = []
         self.replies_raw: List[str] = []  # text written to stdout in answer to request i
         self.stderr: str = ""
+        self.trailing: str = ""
         self.exception: Optional[BaseException] = None
         self.kconf = None
 
@@ -83,7 +84,14 @@ class Session:
                 self.t.exception = e
         finally:
             sys.stdin, sys.stdout, sys.stderr, ks.kconfiglib = saved
-        self._collect()
+        tail = self._out.getvalue()[self._mark :]
+        if not self._started:
+            self.t.initial_raw = tail
+            self._started = True
+        elif len(self.t.replies_raw) < len(self.t.requests):
+            self.t.replies_raw.append(tail)  # the server stopped (died) while answering the last request
+        else:
+            self.t.trailing = tail  # anything written after the last reply was complete
         self.t.stderr = err.getvalue()
         self.t.kconf = self._proxy.instance
         try:
